@@ -80,7 +80,7 @@ func (c *Ctx) rulePathCacheReset(rule string) {
 // ruleOptionScanAny: session options combine by OR.
 func (c *Ctx) ruleOptionScanAny(rule string) {
 	r := c.R
-	r.Rule(rule, "MarshallingOption lists combine by OR: no read of a boolean field of a *MarshallingOption is stored into a variable or carried round a loop (it is only branched on, negated, combined by short-circuit, or returned by a per-option predicate): an option that sets the flag turns it on and no later option can turn it off again — decoders append their own internal option to the caller's list, so 'last one wins' would silently drop the session's setting", 3)
+	r.Rule(rule, "MarshallingOption lists combine by OR: no read of a boolean field of a *MarshallingOption is stored into a variable or carried round a loop (it is only branched on, negated, combined by short-circuit, or returned by a per-option predicate): an option that sets the flag turns it on and no later option can turn it off again — decoders append their own internal option to the caller's list, so 'last one wins' would silently drop the session's setting", 2)
 	mo := c.P.NamedType("pkg/packet/bgp", "MarshallingOption")
 	if mo == nil {
 		r.Undec(rule, "-", "anchor:MarshallingOption", "-", "not found")
@@ -1483,6 +1483,8 @@ var errorsDiscardedReviewed = map[string]string{
 	"(*pkg/packet/bgp.PathAttributeMpReachNLRI).DecodeFromBytes|Serialize":   "builds the Data field of an error that is already being returned",
 	"(*pkg/packet/bgp.PathAttributeMpUnreachNLRI).DecodeFromBytes|Serialize": "builds the Data field of an error that is already being returned",
 	"(*pkg/packet/bgp.SRPolicyNLRI).Len|Serialize":                           "Len() reports the size of what Serialize would emit; an error means size 0",
+	"(*pkg/packet/bgp.flowSpecPrefix).Len|Serialize":                         "Len() reports the size of what Serialize would emit; an error means size 0",
+	"(*pkg/packet/bgp.flowSpecPrefix6).Len|Serialize":                        "Len() reports the size of what Serialize would emit; an error means size 0",
 	"(*pkg/zebra.lookupBody).decodeFromBytes|addressByteLength":              "the family is one of the two constants the function accepts",
 	"pkg/packet/bgp.GetRouteDistinguisher|NewRouteDistinguisherIPAddressAS":  "the address is built from exactly four octets and is therefore always IPv4",
 }
